@@ -72,6 +72,10 @@ FAMILY = [
     ("default_marker", None, "MY", '<p tal:content="m">dflt</p>', "PageTemplate", "PageTemplate"),
     # the table of expression compilers (python: handled as a string)
     ("expression_types", None, "PY_AS_STRING", '<p tal:content="name">x</p> ${name}', "PageTemplate", "PageTemplate"),
+    # not an option at all: the names the process had in ``builtins`` when
+    # it imported chameleon (gettext.install() in one of two applications
+    # sharing the directory) decide how a free name is compiled
+    ("process_builtins", True, None, "<p>${_verif_gb(name)}</p>", "PageTemplate", "PageTemplate"),
     # runtime-only options: sharing an entry is *correct* for these
     ("encoding", None, "utf-8", '<p tal:content="name">x</p>', "PageTemplate", "PageTemplate"),
     ("extra_builtins_value", {"foo": 1}, {"foo": 2}, "<p>${foo}</p>", "PageTemplate", "PageTemplate"),
@@ -161,6 +165,11 @@ def outcome_of_exc(e: BaseException) -> list:
     return ["exc", type(e).__name__, norm_msg(msg)]
 
 
+def _verif_gb(s):
+    """Installed into ``builtins`` (what gettext.install() does with _)."""
+    return str(s).upper()
+
+
 class C15(CheckBase):
     prop = "C15"
     level = "fault_enumeration"
@@ -168,11 +177,18 @@ class C15(CheckBase):
     def __init__(self) -> None:
         self._ref_cache: dict[str, list] = {}
         self._alt = None
+        self._gb_classes: dict = {}
 
     # -- set-up --------------------------------------------------------------
     def warmup(self) -> None:
         ch = import_chameleon()
         self.ch = ch
+        # (after chameleon was imported: its snapshot of the builtin names
+        # does not have it)
+        import builtins
+        from chameleon.compiler import Compiler
+        assert "_verif_gb" not in Compiler.global_builtins
+        builtins._verif_gb = _verif_gb      # type: ignore[attr-defined]
         from chameleon.zpt import template as zt
         self.zt = zt
         self._ensure_alt()
@@ -210,6 +226,8 @@ class C15(CheckBase):
     def _config(self, spec: dict) -> dict:
         cfg = {}
         for k, v in spec.get("config", {}).items():
+            if k == "process_builtins":
+                continue
             k = OPTION_OF.get(k, k)
             if k in SET_OPTIONS and v is not None:
                 v = set(v)
@@ -228,6 +246,8 @@ class C15(CheckBase):
 
     def build(self, spec: dict, loader, world: World | None):
         cls = self._cls(spec["cls"])
+        if spec.get("config", {}).get("process_builtins"):
+            cls = self._knows_builtin(cls)
         cfg = self._config(spec)
         if loader is not None:
             cfg["loader"] = loader
@@ -235,6 +255,28 @@ class C15(CheckBase):
             path = world.path("tpl", spec.get("dir", "d"), spec["file"])
             return cls(path, **cfg)
         return cls(spec["body"], **cfg)
+
+    def _knows_builtin(self, cls):
+        """The same class as seen by a process in which ``_verif_gb`` was
+        a builtin when chameleon was imported (compilation runs with the
+        compiler's import-time snapshot of the builtin names extended)."""
+        k = self._gb_classes.get(cls)
+        if k is None:
+            from chameleon.compiler import Compiler
+
+            class Knows(cls):
+                def cook(self, body):
+                    old = Compiler.global_builtins
+                    Compiler.global_builtins = old | {"_verif_gb"}
+                    try:
+                        return super().cook(body)
+                    finally:
+                        Compiler.global_builtins = old
+            Knows.__name__ = cls.__name__
+            Knows.__qualname__ = cls.__qualname__
+            Knows.__module__ = cls.__module__
+            k = self._gb_classes[cls] = Knows
+        return k
 
     def reference(self, spec: dict, world: World) -> list:
         """[construct outcome, render outcome] without any cache."""
@@ -337,6 +379,8 @@ class C15(CheckBase):
             case["family"] = name
             case["templates"] = [ta, tb]
             mode = ch.pick(["same", "restart", "two"], "mode")
+            if name == "process_builtins":
+                mode = "restart"    # (one snapshot per process)
             # a live instance is given the other configuration (attribute
             # assignment, then write(body)): possible when both are string
             # templates of one class and the target passes every option in
